@@ -92,6 +92,9 @@ def with_bound_materials(data):
     return ET.tostring(root)
 
 
+UNSUPPORTED = b'<linestrips count="1"><input semantic="VERTEX" source="#nowhere" offset="0"/><p>0 1 2</p></linestrips></mesh>'
+
+
 def make_doc(rng, i):
     """(label, bytes in NS141 default-namespace form, replay info)"""
     if i % 3 == 2:
@@ -106,6 +109,10 @@ def make_doc(rng, i):
         data = re.sub(rb'url="#geom', b'url="#missing', data, count=1)
         data = re.sub(rb'<p>\s*(\d+)', b'<p>x\\1', data, count=1)
         return 'damaged', data, dict(gen='docgen', seed=seed, perm=(i % 2 == 0), damaged=True)
+    if i % 4 == 1 and b'</mesh>' in data:
+        # a COLLADA element the library does not support, in the document's own namespace: reported the same way under every URI
+        data = data.replace(b'</mesh>', UNSUPPORTED, 1)
+        return 'unsupported', data, dict(gen='docgen', seed=seed, perm=(i % 2 == 0), damaged=False, unsupported=True)
     return 'docgen', data, dict(gen='docgen', seed=seed, perm=(i % 2 == 0), damaged=False)
 
 
@@ -118,6 +125,8 @@ def rebuild(rep):
     if rep.get('damaged'):
         data = re.sub(rb'url="#geom', b'url="#missing', data, count=1)
         data = re.sub(rb'<p>\s*(\d+)', b'<p>x\\1', data, count=1)
+    if rep.get('unsupported'):
+        data = data.replace(b'</mesh>', UNSUPPORTED, 1)
     return data
 
 
